@@ -101,6 +101,24 @@ func c07Judge(c *engine.Case, cmd *spec.Command, vals map[string]int64) {
 			return
 		}
 	}
+	// the same bytes decoded into a value that has been used before (it last held the all-ones / the
+	// all-zero payload) give the same value: "decode back" does not say the target has to be new
+	for _, fill := range []byte{0xFF, 0x00} {
+		used, _, _ := lorawan.GetMACPayloadAndSize(cmd.Uplink, lorawan.CID(cmd.CID))
+		prev := make([]byte, cmd.Size)
+		for i := range prev {
+			prev[i] = fill
+		}
+		used.UnmarshalBinary(prev)
+		if err := used.UnmarshalBinary(enc); err != nil {
+			c.Fail("values/"+cmd.Name+"/own-encoding-refused-by-used-value", fmt.Sprintf("%s {%s} -> %x: a value that decoded %x before answers %v", cmd.Name, fmtVals(vals), enc, prev, err), nil)
+			return
+		}
+		if g, w := deepPrint(used), deepPrint(back); g != w {
+			c.Fail("values/"+cmd.Name+"/decoded-into-used-value-differs", fmt.Sprintf("%s %x decoded into a value that decoded %x before gives %s, into a new value %s", cmd.Name, enc, prev, g, w), nil)
+			return
+		}
+	}
 	c.Outcome("values/lossless")
 }
 
